@@ -322,6 +322,11 @@ func (t *streamableHTTPClientTransport) send(
 		return nil, fmt.Errorf("%w: %v", ErrResponseParsing, err)
 	}
 
+	// The answer must be the one to this request.
+	if id, hasID := jsonResp["id"]; hasID && id != nil && requestIDKey(id) != requestIDKey(req.ID) {
+		return nil, fmt.Errorf("%w: response id %v does not match request id %v", ErrResponseParsing, id, req.ID)
+	}
+
 	// Check if this is an error response
 	if _, hasError := jsonResp["error"]; hasError {
 		// Return the raw error response for error handling
